@@ -496,8 +496,8 @@ fn main() {
             "cache-class keys are excluded from the durable part",
         ],
         parts: vec![
-            PropPart::new("lin", 6000, 300_000, |t| case_strategy(t, true), lin_check).shrink_iters(600).boxed(),
-            PropPart::new("durable", 1500, 60_000, |t| case_strategy(t, false), durable_check).shrink_iters(300).boxed(),
+            PropPart::new("lin", 6000, 100_000, |t| case_strategy(t, true), lin_check).shrink_iters(600).boxed(),
+            PropPart::new("durable", 1500, 30_000, |t| case_strategy(t, false), durable_check).shrink_iters(300).boxed(),
             Box::new(stress_part()),
         ],
         children: vec![],
